@@ -1,2 +1,17 @@
 """Table of implemented checks: id -> metadata (used by tools/mkmanifest.py and ./check)."""
-CHECKS = {}
+_NOTE = ("Trusted base: TLC 1.8 (model checking of spec/*.tla and evaluation of the monitor over recorded traces); the simulated "
+         "world harness/world.py (scripted socket/TLS/selector/clock/randomness installed at lomond's module-level names, no "
+         "source hooks); the independent codecs harness/codec.py; bounds of the model instances as listed in the evidence file. ")
+_T = "explicit TLA+ spec + TLC model checking; TLC-generated behaviours replayed into the real code; recorded traces judged by the TLA+ monitor %s evaluated by TLC"
+
+CHECKS = {
+    "C07": {
+        "technique": _T % "Mon_C07",
+        "level_text": "TLC checks on the bounded session model (spec/Lomond.tla: server steps x faults x application reactions x timers) that "
+                      "every reachable observation prefix is admissible for the event-order automaton Mon_C07 and that every behaviour "
+                      "terminates (liveness under fairness); every behaviour of the model is replayed into the real code in a simulated "
+                      "world and each recorded trace is judged by the same monitor evaluated by TLC. A virtual-step watchdog turns a hang "
+                      "into a rejected trace.",
+        "level_note": _NOTE + "Exhaustive only within the stated bounds (quick: <= 2-3 stream items, <= 1 reaction; thorough adds deeper simulation).",
+    },
+}
